@@ -27,6 +27,7 @@ import FV.Model.Receivers3
 import FV.Proofs.Receivers3
 import FV.Model.Receivers4
 import FV.Proofs.Receivers4
+import FV.Generated.Locks
 
 namespace FV.C05
 open FV
@@ -371,5 +372,14 @@ example : httpCall true [112] 200 (.decoded [0, 0, 0, 0]) = .req .invalidData :=
   c05_http_zero_frame_is_error [112] 200 [0, 0, 0, 0] (by omega) (by omega) rfl rfl
 example : httpCall true [112] 413 .invalid = .req .tooLarge := rfl
 example : httpOneway 500 (.decoded [0, 0, 0, 0]) = .ok (some .transport) := rfl
+
+/-- **Lock discipline behind the model's atomic steps** (registry, adapter lifecycle lock, framed reader, processor write mutex, NATS server send mutex, subscriber open mutex), decided by the kernel on facts
+REGENERATED from lib/go's source on every check (harness/locks → FV/Generated/Locks.lean): no function
+calls, while it holds one of these mutexes, anything that (transitively) acquires the same mutex, no
+lexical re-lock, and every path out of a function releases what the function locked. This is what makes a
+critical section ONE step of the model and rules out the self-deadlocks (a second RLock behind a queued
+writer, SendError under SendReply's lock) and leaked locks that would wedge every later request. -/
+theorem c05_lock_discipline :
+    FV.Locks.ok [1, 2, 3, 5, 6, 7] FV.Generated.Locks.mutexTags FV.Generated.Locks.facts = true := by decide +kernel
 
 end FV.C05
